@@ -156,8 +156,9 @@ func (maybeSelf someDef[T]) ToMaybe() MaybeDef[T] {
 	switch (ref).(type) {
 	default:
 		return maybeSelf
-	case someDef[T]:
-		return (ref).(someDef[T])
+	case MaybeDef[T]:
+		// any Maybe payload (including None) is flattened by one level
+		return (ref).(MaybeDef[T])
 	}
 }
 
